@@ -48,7 +48,14 @@ pub struct ScriptedReader {
     /// a fault bound to a BYTE POSITION (not to a call count): once `pos` reaches `.0` every further call answers
     /// `.1`, preceded by `.2` not-ready answers; data steps never deliver past the position
     pub fault_at: Option<(usize, RStep, usize)>,
+    /// the positional fault is answered ONCE; afterwards the transport goes on delivering (a decoder that swallows the
+    /// fault and retries then completes, which the recorded result shows)
+    pub fault_fired: bool,
+    /// a decoder that never returns would hang the harness: beyond this many calls the transport panics (= data)
+    pub max_calls: usize,
 }
+
+pub const CALL_SLACK: usize = 200_000;
 
 impl ScriptedReader {
     pub fn new(data: Arc<Vec<u8>>, script: Vec<RStep>, default: RStep) -> Self {
@@ -61,6 +68,8 @@ impl ScriptedReader {
             logging: true,
             calls: Arc::new(std::sync::atomic::AtomicUsize::new(0)),
             fault_at: None,
+            fault_fired: false,
+            max_calls: 0,
         }
     }
     /// everything at once, then EOF
@@ -76,16 +85,25 @@ impl AsyncRead for ScriptedReader {
         buf: &mut ReadBuf<'_>,
     ) -> Poll<io::Result<()>> {
         let me = self.get_mut();
-        me.calls.fetch_add(1, std::sync::atomic::Ordering::Relaxed);
+        let ncalls = me.calls.fetch_add(1, std::sync::atomic::Ordering::Relaxed);
+        if me.max_calls == 0 {
+            me.max_calls = 4 * (me.data.len() + me.script.len()) + CALL_SLACK;
+        }
+        if ncalls > me.max_calls {
+            panic!("spin: the transport was polled {} times for a stream of {} bytes", ncalls, me.data.len());
+        }
         let mut step = me.script.pop_front().unwrap_or(me.default);
         let mut limit = usize::MAX;
         if let Some((at, f, pend)) = me.fault_at.as_mut() {
-            if me.pos >= *at {
+            if me.fault_fired {
+                // after the fault the transport delivers again
+            } else if me.pos >= *at {
                 if *pend > 0 {
                     *pend -= 1;
                     step = RStep::Pending;
                 } else {
                     step = *f;
+                    me.fault_fired = true;
                 }
             } else {
                 limit = *at - me.pos;
@@ -158,8 +176,11 @@ pub struct ScriptedWriter {
     pub script: VecDeque<WStep>,
     pub default: WStep,
     pub log: Vec<WriteLog>,
-    /// fail (with `fail`) once `fail_at` bytes have been accepted
+    /// fail (with `fail`) once `fail_at` bytes have been accepted -- ONCE; afterwards the sink accepts again (an
+    /// encoder that swallows the fault and retries then completes, which the recorded sink shows)
     pub fail_at: Option<(usize, WStep)>,
+    pub fail_fired: bool,
+    pub ncalls: usize,
 }
 
 impl ScriptedWriter {
@@ -170,11 +191,21 @@ impl ScriptedWriter {
             default,
             log: Vec::new(),
             fail_at: None,
+            fail_fired: false,
+            ncalls: 0,
         }
     }
     fn answer(&mut self, len: usize) -> WStep {
+        self.ncalls += 1;
+        if self.ncalls > 4 * (self.sink.len() + len) + CALL_SLACK {
+            panic!("spin: the sink was polled {} times", self.ncalls);
+        }
         if let Some((at, f)) = self.fail_at {
+            if self.fail_fired {
+                return self.script.pop_front().unwrap_or(self.default);
+            }
             if self.sink.len() >= at {
+                self.fail_fired = true;
                 return f;
             }
             let s = self.script.pop_front().unwrap_or(self.default);
@@ -239,6 +270,7 @@ pub struct ScriptedSink {
     /// bytes accepted per call at most
     pub chunk: usize,
     pub fail_at: Option<(usize, WStep)>,
+    pub fail_fired: bool,
     pub calls: Vec<usize>,
 }
 
@@ -248,6 +280,7 @@ impl ScriptedSink {
             sink: Vec::new(),
             chunk,
             fail_at,
+            fail_fired: false,
             calls: Vec::new(),
         }
     }
@@ -256,9 +289,13 @@ impl ScriptedSink {
 impl io::Write for ScriptedSink {
     fn write(&mut self, buf: &[u8]) -> io::Result<usize> {
         self.calls.push(buf.len());
+        if self.calls.len() > 4 * (self.sink.len() + buf.len()) + CALL_SLACK {
+            panic!("spin: the sink was written {} times", self.calls.len());
+        }
         let mut n = self.chunk.max(1).min(buf.len());
-        if let Some((at, f)) = self.fail_at {
+        if let Some((at, f)) = self.fail_at.filter(|_| !self.fail_fired) {
             if self.sink.len() >= at {
+                self.fail_fired = true;
                 return match f {
                     WStep::Zero => Ok(0),
                     WStep::Err(k) => Err(io::Error::new(k, "injected")),
@@ -340,11 +377,42 @@ thread_local! {
     pub static IN_GUARD: std::cell::Cell<u32> = const { std::cell::Cell::new(0) };
 }
 
+/// start (seconds since the epoch) of the outermost call into the code under test that is running now, 0 = none
+pub static OP_START: std::sync::atomic::AtomicU64 = std::sync::atomic::AtomicU64::new(0);
+/// a single call into the code under test that does not return within this many seconds is a hang
+pub const HANG_SECS: u64 = 600;
+pub const HANG_EXIT: i32 = 97;
+
+fn now_secs() -> u64 {
+    std::time::SystemTime::now().duration_since(std::time::UNIX_EPOCH).map(|d| d.as_secs()).unwrap_or(1)
+}
+
+/// Watchdog: the code under test must terminate (C03); a call that never returns would otherwise hang the check.
+pub fn start_watchdog() {
+    std::thread::spawn(|| loop {
+        std::thread::sleep(std::time::Duration::from_secs(2));
+        let t = OP_START.load(std::sync::atomic::Ordering::Relaxed);
+        if t != 0 && now_secs().saturating_sub(t) > HANG_SECS {
+            eprintln!("harness hang: a call into the code under test did not return within {HANG_SECS}s");
+            std::process::exit(HANG_EXIT);
+        }
+    });
+}
+
 /// Run `f`, turning a panic into data.
 pub fn guarded<T>(f: impl FnOnce() -> T) -> Result<T, String> {
-    IN_GUARD.with(|g| g.set(g.get() + 1));
+    let depth = IN_GUARD.with(|g| {
+        g.set(g.get() + 1);
+        g.get()
+    });
+    if depth == 1 {
+        OP_START.store(now_secs(), std::sync::atomic::Ordering::Relaxed);
+    }
     let r = std::panic::catch_unwind(std::panic::AssertUnwindSafe(f));
     IN_GUARD.with(|g| g.set(g.get() - 1));
+    if depth == 1 {
+        OP_START.store(0, std::sync::atomic::Ordering::Relaxed);
+    }
     match r {
         Ok(v) => Ok(v),
         Err(e) => {
